@@ -196,6 +196,7 @@ type searchHit struct {
 	h    StrV
 	c    int
 	mask Mask // possible needle bytes
+	nlen Lin  // needle length (strings.Index); zero value = 1 byte
 }
 
 func newState() *State {
